@@ -330,7 +330,10 @@ func (c *StandardClass) mergeSupers() bool {
 		sc := c.pkg.FindClass(string(super))
 		ssc := c.inheritCheck(sc)
 		if ssc == nil || len(ssc.precedence) == 0 {
+			// Not ready, or no longer ready after a superclass was
+			// redefined with a superclass that is not defined yet.
 			c.inherit = c.inherit[:0]
+			c.precedence = c.precedence[:0]
 			return false
 		}
 		if c.Inherits(ssc) {
@@ -515,11 +518,21 @@ func makeClassesReady(p *slip.Package) {
 }
 
 func classChanged(cc slip.Class, p *slip.Package) {
+	var subs []isStandardClass
 	for _, c := range p.AllClasses() {
 		if c.Inherits(cc) {
 			if sc, ok := c.(isStandardClass); ok {
-				sc.mergeSupers()
+				subs = append(subs, sc)
 			}
 		}
+	}
+	// Merge a class before its subclasses since a merge picks up the
+	// already merged lists of the direct superclasses. A class always
+	// inherits from more classes than any of its superclasses.
+	sort.Slice(subs, func(i, j int) bool {
+		return len(subs[i].InheritsList()) < len(subs[j].InheritsList())
+	})
+	for _, sc := range subs {
+		sc.mergeSupers()
 	}
 }
